@@ -214,7 +214,8 @@ class PerformanceTable:
         assert isinstance(check_neg, pd.DataFrame)
 
         def check_coverage(df, label):
-            if len(df.fl.unique()) * len(df.mass.unique()) != len(df):
+            n_pairs = len(df.drop_duplicates(subset=['fl', 'mass']))
+            if n_pairs != len(df) or len(df.fl.unique()) * len(df.mass.unique()) != len(df):
                 raise ValueError(
                     f'Performance data at {label} ROC does not have full coverage'
                 )
